@@ -147,11 +147,11 @@ def record_run(chunks: list[bytes], reader=None, reuse=False) -> dict | None:
         except Exception:  # noqa: BLE001
             pass
         try:
-            if reuse and n % 2:
+            if reuse == "view":
                 rbuf[:len(ch)] = ch
-                res = r.read(memoryview(rbuf)[:len(ch)])        # a view of the caller's receive buffer, overwritten by the next odd call
+                res = r.read(memoryview(rbuf)[:len(ch)])        # a view of the caller's ONE receive buffer, overwritten by the next call
             elif reuse:
-                res = r.read(_refill(rbuf2, ch))                # one bytearray object, refilled for every even call
+                res = r.read(_refill(rbuf2, ch))                # one bytearray object, refilled for every call
             else:
                 res = r.read(ch)
             outs = [readout_record(x) for x in res]
@@ -181,7 +181,7 @@ def _refill(buf: bytearray, ch: bytes) -> bytearray:
 def make_trace(data: bytes, cutsets, *, mode="free", plan=None, origin="", nodrift=False) -> dict:
     runs = [record_run(split(data, cuts)) for cuts in cutsets]
     if len(cutsets) > 1 and len(data) < 20000:      # one more run: the last chunking again through a caller-owned, refilled receive buffer
-        run = record_run(split(data, cutsets[-1]), reuse=True)
+        run = record_run(split(data, cutsets[-1]), reuse="view" if len(data) % 2 else "refill")
         if run is not None:
             runs.append(run)
     return {"id": stable_id("p1", data.hex(), cutsets, mode), "canary": "", "origin": origin, "mode": mode,
